@@ -197,7 +197,10 @@ def to_sval(x, sort=False):
     out = bytearray()
     _render(x, sort, out)
     r = bytes(out)
-    return "".join(hashlib.blake2b(salt + r, digest_size=DIGEST_SIZE[0]).hexdigest() for salt in (b"0", b"1", b"2", b"3"))
+    n = len(r) // 4
+    parts = [r[:n], r[n:2 * n], r[2 * n:3 * n], r[3 * n:]]
+    return "".join(hashlib.blake2b(salt + part, digest_size=DIGEST_SIZE[0]).hexdigest()
+                   for salt, part in zip((b"0", b"1", b"2", b"3"), parts))
 
 
 def _render(x, sort, out):
